@@ -135,6 +135,11 @@ Lemma pin_polynomial_Polynomial_tosympy : src_polynomial_Polynomial_tosympy = "d
     res = Add(*terms, evaluate=True)
     return res".
 Proof. reflexivity. Qed.
+Lemma pin_polynomial_Polynomial___truediv__ : src_polynomial_Polynomial___truediv__ = "def __truediv__(self, other):
+    if isinstance(other, self.__class__):
+        return RationalPolynomial(self, other)
+    return self * (1 / other)".
+Proof. reflexivity. Qed.
 Lemma pin_polynomial_RationalPolynomial___init__ : src_polynomial_RationalPolynomial___init__ = "def __init__(self, numer, denom=None):
     if isinstance(numer, self.__class__):
         numer = numer.numer
